@@ -65,6 +65,21 @@ def generate(seed, tier):
         case["size"] = rng.choice(sizes)
     elif x < 0.5:
         case["order"] = rng.choice(sizes) - 1
+    if rng.random() < 0.3:
+        # the object has a past: it is reshuffled once, edited in place (one hyperedge replaced by another one, same
+        # count) and reshuffled again - the second call must be about the edited content
+        target = case.get("size", case["order"] + 1 if "order" in case else None)
+        for _ in range(20):
+            rem = rng.randrange(len(spec["edges"]))
+            k = rng.randint(2, min(5, len(spec["nodes"])))
+            if target is not None and len(spec["edges"][rem]) == target:
+                k = target  # a size/order argument keeps at least the hyperedges of that size it had (an absent size is not claimed)
+            if k > len(spec["nodes"]):
+                continue
+            new = rng.sample(spec["nodes"], k)
+            if all(set(new) != set(e) for e in spec["edges"]):
+                case["edit"] = {"remove": rem, "add": new}
+                break
     if tier == "thorough" and case["K"] > 60:
         # long chains: check a sample of prefixes
         case["prefixes"] = sorted(set([0, 1, 2, case["K"]] + [rng.randint(0, case["K"]) for _ in range(40)]))
@@ -170,6 +185,30 @@ def execute(case):
             traces.append(fac.digest())
             fstats = fac.stats()
             head = fac.head
+        if case.get("edit"):
+            from hypergraphx.generation.configuration_model import configuration_model
+
+            h = _gen.build_hypergraph(case["spec"], weights=case.get("weights"), weighted=bool(case.get("weights")))
+            kw = {"n_steps": case["K"], "label": case["label"], "detailed": case["detailed"]}
+            for f in ("size", "order"):
+                if f in case:
+                    kw[f] = case[f]
+            fac = Facade(derive(case["seed"], "edit"), q=case["q"])
+            try:
+                with fac, contextlib.redirect_stdout(io.StringIO()):
+                    configuration_model(h, **kw)
+                    h.remove_edge(tuple(case["spec"]["edges"][case["edit"]["remove"]]))
+                    if case.get("weights"):
+                        h.add_edge(tuple(case["edit"]["add"]), weight=3)
+                    else:
+                        h.add_edge(tuple(case["edit"]["add"]))
+                    h_out = configuration_model(h, **kw)
+            except DrawBudgetExceeded as e:
+                raise Violation("C13/undirected/liveness-draw-budget", {"n_steps": case["K"], "why": str(e), "after": "in-place edit"})
+            except Exception as e:  # noqa
+                raise Violation("C13/undirected/raised", {"n_steps": case["K"], "exception": repr(e), "after": "in-place edit"})
+            _check_undirected(case, h, h_out, case["K"])
+            stats["second_call_after_inplace_edit"] = 1
         # the argument must not be modified
         return {"violation": None, "digest": digest([case["mode"], traces]),
                 "stats": {"c13": stats, "faults": fstats.get("overrides", {}), "draws": fstats.get("draws", {})},
@@ -250,6 +289,10 @@ def simplify(case):
     if case.get("q", 0) > 0:
         c2 = dict(c)
         c2["q"] = 0.0
+        yield c2
+    if case.get("edit"):
+        c2 = json.loads(json.dumps(c))
+        c2.pop("edit")
         yield c2
     if case["mode"] == "undirected":
         if case["K"] > 1:
